@@ -1,5 +1,7 @@
 import AfqmcVerif.Lemmas.SingleDet
 import AfqmcVerif.Lemmas.Estimator
+import Mathlib.Data.Matrix.ColumnRowPartitioned
+import Mathlib.LinearAlgebra.Matrix.SchurComplement
 
 /-!
 # C01 — trial overlap equals the many-body overlap ⟨ψ_T|φ⟩ (single-determinant kinds; all dimensions)
@@ -9,6 +11,7 @@ written out over occupation strings.  For the multi-determinant kinds (NOCI as a
 determinant lists; CISD-type expansions) the tie compares the library with the explicit Fock-space
 state (harness/trials.py, harness/fock.py); their Lean theorems are not part of this file.
 -/
+set_option linter.unusedSectionVars false
 namespace AfqmcVerif.Props.C01
 open AfqmcVerif.SingleDet Matrix
 
@@ -53,5 +56,31 @@ theorem rdm1_is_expectation (C : Matrix (Fin m) (Fin k) K) (hC : Cᴴ * C = 1) (
   apply Finset.sum_congr rfl
   intro i _
   simp [mul_comm]
+
+/-! ## GHF -/
+
+/-- `ghf._calc_overlap`: `det(hstack[C[:norb].T @ W↑, C[norb:].T @ W↓])` (plain transposes, real orbitals) -/
+noncomputable def ghfOverlap (Cup Cdn : Matrix (Fin m) (Fin ka ⊕ Fin kb) K)
+    (Wa : Matrix (Fin m) (Fin ka) K) (Wb : Matrix (Fin m) (Fin kb) K) : K :=
+  (Matrix.fromCols (Cupᵀ * Wa) (Cdnᵀ * Wb)).det
+
+/-- the stacked matrix is `Cᵀ` times the spin-orbital walker `diag(W↑, W↓)`: the GHF overlap is the determinant
+overlap `det(Cᵀ W_so)` in the doubled orbital space (to which Cauchy–Binet applies verbatim) -/
+theorem ghf_hstack (Cup Cdn : Matrix (Fin m) (Fin ka ⊕ Fin kb) K)
+    (Wa : Matrix (Fin m) (Fin ka) K) (Wb : Matrix (Fin m) (Fin kb) K) :
+    Matrix.fromCols (Cupᵀ * Wa) (Cdnᵀ * Wb)
+      = (Matrix.fromRows Cup Cdn)ᵀ * Matrix.fromBlocks Wa 0 0 Wb := by
+  rw [Matrix.transpose_fromRows, Matrix.fromCols_mul_fromBlocks]
+  simp
+
+/-- a GHF trial with spin-pure orbitals **is** the UHF trial: for `C = diag(C↑, C↓)` the two overlaps coincide
+(real orbitals: the code uses plain transposes for ghf and conjugate transposes for uhf) -/
+theorem ghf_block_diagonal_is_uhf (Ca : Matrix (Fin m) (Fin ka) K) (Cb : Matrix (Fin m) (Fin kb) K)
+    (Wa : Matrix (Fin m) (Fin ka) K) (Wb : Matrix (Fin m) (Fin kb) K) :
+    ghfOverlap (Matrix.fromCols Ca 0) (Matrix.fromCols 0 Cb) Wa Wb = (Caᵀ * Wa).det * (Cbᵀ * Wb).det := by
+  unfold ghfOverlap
+  rw [Matrix.transpose_fromCols, Matrix.transpose_fromCols, Matrix.fromRows_mul, Matrix.fromRows_mul,
+    Matrix.fromCols_fromRows_eq_fromBlocks]
+  simp [Matrix.det_fromBlocks_zero₂₁]
 
 end AfqmcVerif.Props.C01
